@@ -10,6 +10,7 @@
     C14_task              the fused sub-graph (nested groups at any position) computes what the unfused member tasks compute
     C14_task_counterexample   witness of the open finding D60 (one-partition nested group in an n-partition group)
     C14_meta              npartitions / ndim (meta) of `Fused G` are those of `G[0]`
+    C14_substitute        the substitution of `Fused G` for `G[0]` leaves the value of every key of every other expression (and of the plan's root) unchanged
     C14_terminates        a successful pass strictly decreases the number of reachable blockwise nodes
     C14_loop_terminates   hence the outer loop of `optimize_blockwise_fusion` stops
     C14_walk_total        the operand walk never exhausts its fuel
@@ -17,6 +18,7 @@
 import DxModel.Lemmas.FusionPass
 import DxModel.Lemmas.FusionMeasure
 import DxModel.Lemmas.FusionTask
+import DxModel.Lemmas.FusionSubst
 namespace Dx
 open Fusion
 
@@ -180,6 +182,59 @@ theorem C14_meta_pass (ord : Nat → List Nat → List Nat) (dag : Dag) (root : 
   exact ⟨h1, h2⟩
 
 example : (fusedNode C14Ex.dag [4, 2, 3]).npart = 3 ∧ (fusedNode C14Ex.dag [4, 2, 3]).deps = [1, 0] := by decide
+
+
+/-! ### 3b. substitution -/
+
+/-- `nameRankedB` (Lemmas/FusionSubst.lean) is a decidable instance of "the plan is acyclic": operands
+    and the first member of a `Fused` node have smaller names (the harness numbers plans in post-order). -/
+theorem C14_ranked_check_sound (dag : Dag) (h : nameRankedB dag = true) : RankedBy dag id :=
+  nameRankedB_sound dag h
+
+/-- **Substitution.**  A successful pass returns the plan in which every operand `G[0]` has become
+    the new `Fused G` node.  In the reference semantics (every blockwise node computes
+    `Blockwise._task(i)`; a `Fused` node stands for its first member — which is what `C14_task` proves
+    its task computes) every key `(x, i)` of every expression `x` of the old plan — consumers of the
+    group, members, unrelated branches — keeps its value, and the key `(root', i)` of the new root has
+    the value of the old root's `(root, i)`: consumers read the same partition number of the `Fused`
+    node as they read of `G[0]` because `Fused` reports `G[0]`'s partition count and dimensionality
+    (`_broadcast_dep` decides on those).  For every interpretation of the operations, all inputs
+    `inp` (values of non-blockwise keys), every acyclic plan (`ρ` any rank), all sufficiently large fuels. -/
+theorem C14_substitute (I : Interp) (ord : Nat → List Nat → List Nat) (hord : OrdOK ord) (dag : Dag)
+    (root : Nat) (r : PassResult) (G : List Nat) (h : fusionPass ord dag root = some r)
+    (hg : r.group = some G) (ρ : Nat → Nat) (hr : RankedBy dag ρ)
+    (hmem : ∀ x nd, getNode dag x = some nd → ∀ m rs, nd.members = m :: rs → (getNode dag m).isSome = true)
+    (hroot : (getNode dag root).isSome = true) (inp : FKey → Option V) :
+    (∀ x i N N', x ≠ freshName dag → ρ x < N → 2 * ρ x + 2 ≤ N' →
+        run I (refGraph r.dag) inp N' (.part x i) = run I (refGraph dag) inp N (.part x i)) ∧
+    (∀ i N N', ρ root < N → 2 * ρ root + 3 ≤ N' →
+        run I (refGraph r.dag) inp N' (.part r.root i) = run I (refGraph dag) inp N (.part root i)) := by
+  obtain ⟨hok, _⟩ := fusionPass_groupOK ord hord dag root r G h hg
+  obtain ⟨_, _, _, _, _, h1, h2⟩ := fusionPass_some ord dag root r G h hg
+  have hmem' : ∀ x nd, getNode dag x = some nd → ∀ m rs, nd.members = m :: rs → m ≠ freshName dag := by
+    intro x nd hx m rs hm hfr
+    have := hmem x nd hx m rs hm
+    rw [hfr, getNode_fresh] at this
+    cases this
+  have hf := fusedNode_for dag G hok.nonempty hmem'
+  have hrootne : root ≠ (fusedNode dag G).name := by
+    intro hh
+    have : getNode dag root = none := by rw [hh]; exact getNode_fresh dag
+    rw [this] at hroot; cases hroot
+  rw [h1, h2]
+  refine ⟨?_, ?_⟩
+  · intro x i N N' hx hN hN'
+    exact subst_value I dag (G.headD 0) (fusedNode dag G) hf ρ hr inp (ρ x) x rfl hx i N N' hN hN'
+  · intro i N N' hN hN'
+    exact subst_root_value I dag (G.headD 0) (fusedNode dag G) hf ρ hr inp root hrootne i N N' hN hN'
+
+example : nameRankedB C14Ex.dag = true ∧ nameRankedB C14Ex.dag2 = true := by decide
+/-- non-vacuity: the pass on `C14Ex.dag` fuses `[4, 2, 3]` into node 5 = the new root; the old root's
+    partition 1 and the new root's partition 1 have the same (non-error) value. -/
+example : (fusionPass ordId C14Ex.dag 4).map (fun r => (r.root, r.group)) = some (5, some [4, 2, 3]) := by decide
+example : (fusionPass ordId C14Ex.dag 4).map (fun r => run I0 (refGraph r.dag) (fun _ => some (.frame [])) 12 (.part r.root 1))
+    = some (run I0 (refGraph C14Ex.dag) (fun _ => some (.frame [])) 5 (.part 4 1)) := by decide
+example : run I0 (refGraph C14Ex.dag) (fun _ => some (.frame [])) 5 (.part 4 1) = V.frame [⟨4, 2, 0⟩] := by decide
 
 /-! ### 4. termination -/
 
